@@ -12,6 +12,7 @@ Definition topo_U (phi theta rx ry rz : R) : R :=
   cos phi * cos theta * rx + cos phi * sin theta * ry + sin phi * rz.
 Definition norm3 (rx ry rz : R) : R := sqrt (rx * rx + ry * ry + rz * rz).
 
-(* a is the azimuth (clockwise from north) of a vector with horizontal components (E, N) *)
+(* a is the azimuth (clockwise from north) of a vector with horizontal components (E, N).
+   The range is the property's closed [0, 360] deg: due north may be reported as 0 or as 360. *)
 Definition is_azimuth (a E N : R) : Prop :=
-  0 <= a < 2 * PI /\ sin a = E / sqrt (N * N + E * E) /\ cos a = N / sqrt (N * N + E * E).
+  0 <= a <= 2 * PI /\ sin a = E / sqrt (N * N + E * E) /\ cos a = N / sqrt (N * N + E * E).
